@@ -62,13 +62,35 @@ def render_fragment(unit, docs, types):
         if i >= len(cands):
             raise ExtractionBreak('fragment %s: only %d matches' % (unit['name'], len(cands)))
         sel = cands[i]
+    span = [sel]
+    if unit.get('through_kind'):
+        # a run of consecutive sibling statements: from the selected statement through the first later sibling matching the
+        # second predicate (through_kind / through_mentions)
+        tm = [x.strip() for x in unit.get('through_mentions', '').split(',') if x.strip()]
+        parent = None
+        for n in walk(body):
+            if n.get('kind') == 'CompoundStmt' and any(c is sel for c in n.get('inner', []) or []):
+                parent = n
+        if parent is None:
+            raise ExtractionBreak('fragment %s: selected statement is not a direct child of a block' % unit['name'])
+        sib = parent['inner']
+        i0 = [k for k, c in enumerate(sib) if c is sel][0]
+        j0 = None
+        for k in range(i0 + 1, len(sib)):
+            if sib[k].get('kind') == unit['through_kind'] and all(m in names_in(sib[k]) for m in tm):
+                j0 = k
+                break
+        if j0 is None:
+            raise ExtractionBreak('fragment %s: no later sibling %s mentioning %s' % (unit['name'], unit['through_kind'], tm))
+        span = sib[i0:j0 + 1]
     p = Printer(types, unit)
     p.fragment = True
     # locals declared inside the fragment are local; everything else referenced is free
-    for x in walk(sel):
-        if x.get('kind') == 'VarDecl':
-            p.local_ids.add(x['id'])
-    txt = p.st(sel, 1)
+    for st_ in span:
+        for x in walk(st_):
+            if x.get('kind') == 'VarDecl':
+                p.local_ids.add(x['id'])
+    txt = ''.join(p.st(st_, 1) for st_ in span)
     params = []
     uses_self = 'self->' in txt or 'self)' in txt or re.search(r'\bself\b', txt)
     if uses_self or unit.get('force_self'):
